@@ -278,6 +278,12 @@ class Check:
         self.known_lines.append(text)
 
     def finish(self, checker_cmd):
+        # safety net: an undischarged obligation never goes unreported
+        failed = [(n, d) for (n, ok, d) in self.obligations if not ok]
+        if failed and not self.violations:
+            self.violation("undischarged", dict(kind="obligations", broken="; ".join(n for n, _ in failed)[:300],
+                                                undischarged=[dict(name=n, detail=d) for n, d in failed]),
+                           note="no-failing-input-found")
         wall = time.time() - self.t0
         n_ob = len(self.obligations)
         n_ok = sum(1 for o in self.obligations if o[1])
